@@ -30,7 +30,16 @@ def random_instance(rng, cls, small=False):
         base = I.cyc_node_base(rng, wt=wt, exact=exact, max_edges=me - 1) if node else I.cyc_edge_base(rng, wt=wt, exact=exact, max_edges=me)
     else:
         base = I.dag_node_base(rng, wt=wt, exact=exact, max_edges=me) if node else I.dag_edge_base(rng, wt=wt, exact=exact, max_edges=me + 1)
-    if cls in ERR + ["kFlowDecomp", "kFlowDecompCycles"] and rng.random() < 0.12:
+    ring = None
+    if cyc and node and cls not in ("kFlowDecomp",) and rng.random() < 0.12:
+        # a graph WITHOUT natural source or sink: a ring (plus possibly a chord), node-weighted, entered and left through additional
+        # start/end nodes; one walk from a to the predecessor of a explains every node
+        n_ = rng.randint(2, 5); rn = [f"r{i}" for i in range(n_)]; w_ = rng.choice([1, 2, 3]) if wt == "int" else rng.choice([0.5, 1.5, 2.0])
+        re_ = [(rn[i], rn[(i + 1) % n_]) for i in range(n_)]
+        a_ = rng.randrange(n_)
+        base = {"nodes": rn, "edges": re_, "flow": {v: w_ for v in rn}, "planted": [([rn[(a_ + i) % n_] for i in range(n_)], w_)], "wt": wt, "noise": {}, "mode": "node"}
+        ring = (rn[a_], rn[(a_ - 1) % n_])
+    if cls in ERR + ["kFlowDecomp", "kFlowDecompCycles"] and rng.random() < 0.12 and ring is None:
         I.add_zero_elements(rng, base, n=1)
     kw = {}
     meta = {"mode": base["mode"], "planted": len(base["planted"]), "starts": [], "ends": [], "ignore": [], "allow_empty": False}
@@ -95,7 +104,10 @@ def random_instance(rng, cls, small=False):
     if all(str(gen.jl(e) if isinstance(e, tuple) else e) in dead for e in elems):
         kw.pop("elements_to_ignore", None); kw.pop("error_scaling", None); meta["ignore"] = []; drop = []; garbage = {}
     supports_se = cls not in ("kFlowDecomp",) and not (cls in ("MinFlowDecomp", "MinFlowDecompCycles") and base["mode"] == "edge")
-    if supports_se and rng.random() < 0.25 and len(base["nodes"]) >= 3:
+    if ring is not None:
+        meta["starts"] = [ring[0]]; kw["additional_starts"] = [ring[0]]; meta["ends"] = [ring[1]]; kw["additional_ends"] = [ring[1]]
+        kw.pop("elements_to_ignore", None); meta["ignore"] = []; drop = []; garbage = {}
+    elif supports_se and rng.random() < 0.25 and len(base["nodes"]) >= 3:
         inner = I.inner_nodes(base) or base["nodes"]
         if rng.random() < 0.7:
             meta["starts"] = [rng.choice(inner)]; kw["additional_starts"] = list(meta["starts"])
